@@ -373,7 +373,7 @@ class MessagePassingComputation(object, metaclass=ComputationMetaClass):
         pending_msg_count = 0
         while self._paused_messages_recv:
             pending_msg_count += 1
-            src, msg, t = self._paused_messages_recv.pop()
+            src, msg, t = self._paused_messages_recv.pop(0)
             # Do NOT call on_message directly, that would block the
             # agent's thread for a potentially long time during which we
             # would not be able to handle any mgt message.
@@ -424,7 +424,7 @@ class MessagePassingComputation(object, metaclass=ComputationMetaClass):
             waiting_msg_count = 0
             while self._paused_messages_post:
                 waiting_msg_count += 1
-                target, msg, prio, e = self._paused_messages_post.pop()
+                target, msg, prio, e = self._paused_messages_post.pop(0)
                 self.post_msg(target, msg, prio, e)
             self.logger.debug(
                 "On resume, posting %s pending messages ", waiting_msg_count
@@ -433,7 +433,7 @@ class MessagePassingComputation(object, metaclass=ComputationMetaClass):
             waiting_msg_count = 0
             while self._paused_messages_recv:
                 waiting_msg_count += 1
-                src, msg, t = self._paused_messages_recv.pop()
+                src, msg, t = self._paused_messages_recv.pop(0)
                 # Do NOT call on_message directly, that would block the
                 # agent's thread for a potentially long time during which we
                 # would not be able to handle any mgt message.
